@@ -336,21 +336,26 @@ theorem ofBool_ret {x : Except Err Bool} {b : Bool} (h : MatchKernels.ofBool x =
   | ok c => simp only [MatchKernels.ofBool, DT.Res.ret.injEq] at h; rw [h]
 
 /-- a TP stays a TP, read off the code's decision table of `is_result_correct`: if the table answers `True` at `t`
-(ordinary ground truth), it answers `True` at every looser valid `t'` -/
+(ordinary ground truth, `t` on the mode's scale: the in-quantifier predicate `thrValid`), it answers `True` at every
+looser `t'` on the scale; what the kernels do with an IoU threshold outside [0, 1] is left open by C08's text -/
 theorem table_isResultCorrect_mono {tr : DT.DTree} (ht : Gen.K.resultCorrect.tree = some tr) (m : Mode) (r : Res)
-    (t t' : Rat) (hord : ∀ g, r.gt = some g → g.label ≠ fpLabel) (hl : looser m t t') (hv : thrValid m t' = true)
+    (t t' : Rat) (hord : ∀ g, r.gt = some g → g.label ≠ fpLabel) (hl : looser m t t')
+    (hvt : thrValid m t = true) (hv : thrValid m t' = true)
     (h : DT.eval tr (MatchKernels.valAP m (some t) r) = .ret true) :
     DT.eval tr (MatchKernels.valAP m (some t') r) = .ret true := by
-  rw [KernelStatus.resultCorrect_code_table_eq_isResultCorrect tr ht] at h ⊢
+  rw [KernelStatus.resultCorrect_code_table_eq_isResultCorrect tr ht _ _ _ (MatchKernels.thrOk_some hvt)] at h
+  rw [KernelStatus.resultCorrect_code_table_eq_isResultCorrect tr ht _ _ _ (MatchKernels.thrOk_some hv)]
   rw [isResultCorrect_mono m r t t' hord hl hv (ofBool_ret h)]
   rfl
 
 /-- the status pair of the code's table of `get_status`: (TP, TP) at `t` stays (TP, TP) at every looser valid `t'` -/
 theorem table_status_tp_mono {tr : DT.DTree} (ht : Gen.K.status.tree = some tr) (m : Mode) (r : Res)
-    (t t' : Rat) (hord : ∀ g, r.gt = some g → g.label ≠ fpLabel) (hl : looser m t t') (hv : thrValid m t' = true)
+    (t t' : Rat) (hord : ∀ g, r.gt = some g → g.label ≠ fpLabel) (hl : looser m t t')
+    (hvt : thrValid m t = true) (hv : thrValid m t' = true)
     (h : DT.eval tr (MatchKernels.valAP m (some t) r) = .other MatchKernels.sTpTp) :
     DT.eval tr (MatchKernels.valAP m (some t') r) = .other MatchKernels.sTpTp := by
-  rw [KernelStatus.status_code_table_eq_getStatus tr ht] at h ⊢
+  rw [KernelStatus.status_code_table_eq_getStatus tr ht _ _ _ (MatchKernels.thrOk_some hvt)] at h
+  rw [KernelStatus.status_code_table_eq_getStatus tr ht _ _ _ (MatchKernels.thrOk_some hv)]
   unfold getStatus at h ⊢
   cases hg : r.gt with
   | none => simp [hg, MatchKernels.ofStatusAP, MatchKernels.statusCodeAP, MatchKernels.sFpNone, MatchKernels.sTpTp] at h
